@@ -13,6 +13,14 @@ NA = {
 }
 
 CHECKS = {
+ "C01": dict(engine="plansim", cat="exploration", ref="DESIGN.md 4/C01",
+   text="Seeded search over whole-planner runs: each of the 33 single-threaded geometric planners (round-robin) on generated worlds (R^n, SE(2), SE(3), weighted compound, Reeds-Shepp for directed planners; balls, boxes and sub-resolution slabs; 1-3 starts incl. invalid / out-of-bounds ones; state / multi-state / non-sampleable region goals; thresholds from epsilon), with swarm-chosen planner knobs, nearest-neighbour structure and seed, one or two solves cancelled at a simulator-chosen termination-condition evaluation (fault F1). Every path added is judged by the path oracle (valid in-bounds start, bounds, goal / approximate-flag / difference agreement, dense re-validation with the world's own closed-form predicate against the 2-resolution-step bound using an independently computed segment count, pairwise checkMotion re-check for whitelisted planners) and the status oracle.",
+   note="Trusted: the world's closed-form validity predicate, StateSpace::interpolate/distance (C06/C07 are not applicable here), the hand-maintained pairwise whitelist (an omission only weakens a clause). Threaded / wall-clock planners are covered under the scheduler in C19. Crashes are judged by C03, not here.",
+   technique="deterministic simulation: seeded whole-planner runs with cancellation-point fault injection, path/status oracles, shrinking + replay"),
+ "C03": dict(engine="plansim", cat="fault_enumeration", ref="DESIGN.md 4/C03",
+   text="Fault enumeration of the cancellation point: for each generated base case (planner round-robin over 33 single-threaded geometric planners, world, query, knobs, seed) the first solve() is cancelled at EVERY termination-condition evaluation index k = 0..39 (quick) / 0..151 (thorough) plus 8 geometrically spaced larger k beyond the first solution, each in its own forked child (plain and ASan/UBSan builds), followed by a generated history of continued solves, getPlannerData, clear / clearQuery / new problem definition. Judged after every op: bounded return (<=10^4 further PTC evaluations, <=10^6 further validity checks), status truth against what the problem definition holds, no empty / wrongly rooted / goal-missing path, no crash or sanitizer report, no free of a non-live state, zero live states at process exit (ledger over the real allocState/freeState), continued solves never worsen the top solution, no state of the previous query in paths of the new one.",
+   note="Trusted: the state ledger mix-in and the world predicate. States are accounted at process exit after static destructors (BIT*-family retention by design). Non-state memory leaks are outside the statement (LSan off). setup() twice and pdef->clearSolutionPaths() between solves are outside the quantified calls and not generated. Known findings (LazyLBTRRT, LBTRRT, BFMT resume) are listed in known_findings.json.",
+   technique="deterministic simulation: enumeration of the cancellation index per base case + seeded histories, fork-per-case, ASan/UBSan + state ledger as oracles, shrinking + replay"),
  "C10": dict(engine="dssim", cat="exploration", ref="DESIGN.md 4/C10",
    text="Seeded search over op histories (add/add(vector)/remove/clear/nearest/nearestK/nearestR/list) on the real GNAT, GNAT-no-thread-safety, linear and sqrt-approx structures with swarm-chosen tree parameters, exact-tie metrics and simulator-owned pivot draws (hook H1), refined op by op against a brute-force reference model, under ASan/UBSan. Sampling, not enumeration: a clean run is evidence.",
    note="Trusted: the harness's metric functions and brute-force model (~60 lines). Assumes a single caller thread (concurrency is C19).",
@@ -51,6 +59,8 @@ def main():
         else:
             na.append(dict(property_id=pid, reason=PENDING.get(pid, "not claimed yet: the check for this property is designed (DESIGN.md 4) but not built/registered at this commit")))
     engines = [
+        dict(name="plansim", path="engines/plansim.cpp", serves_properties=["C01", "C03"],
+             kind_free_text="whole real planners on generated worlds, one forked child per case, cancellation at chosen PTC evaluation, op histories"),
         dict(name="dssim", path="engines/dssim.cpp", serves_properties=["C10", "C11", "C12", "C13"],
              kind_free_text="in-process seeded op histories on the real data structures vs executable reference models"),
     ]
